@@ -1065,16 +1065,21 @@ _dispatch_operation_create(dispatch_op_direction_t direction,
 		_dispatch_retain(queue);
 		_dispatch_retain(channel);
 		dispatch_async(channel->barrier_queue, ^{
+			// A zero-length operation never reaches
+			// _dispatch_operation_enqueue(): notice here, on the barrier queue
+			// where the closed flag is set, that the channel has been closed
+			// since the operation was scheduled
+			int op_err = err ? err : _dispatch_io_get_error(NULL, channel, false);
 			dispatch_async(queue, ^{
 				dispatch_data_t d = data;
-				if (direction == DOP_DIR_READ && err) {
+				if (direction == DOP_DIR_READ && op_err) {
 					d = NULL;
-				} else if (direction == DOP_DIR_WRITE && !err) {
+				} else if (direction == DOP_DIR_WRITE && !op_err) {
 					d = NULL;
 				}
 				_dispatch_channel_debug("IO handler invoke: err %d", channel,
-						err);
-				handler(true, d, err);
+						op_err);
+				handler(true, d, op_err);
 				_dispatch_release(channel);
 				_dispatch_io_data_release(data);
 			});
